@@ -61,6 +61,12 @@ EXTRA_SPECS = {
          'detection uses the first (detection) element of npixels'),
     ],
     'C06': _SEG_LABELS + [
+        (f'{SEG}.deblend._SingleSourceDeblender.make_markers', 'expr',
+         '_detect_sources(self.data, thresholds[0], self.npixels, self.footprint, self.segment_mask, relabel=False, return_segmimg=False)',
+         'the lowest-level markers obey npixels like every other level (no child seeded by a smaller island)'),
+        (f'{SEG}.deblend._SingleSourceDeblender.make_markers', 'expr',
+         '_detect_sources(self.data, threshold, self.npixels, self.footprint, self.segment_mask, relabel=False, return_segmimg=False)',
+         'the upper-level markers obey npixels'),
         (f'{SEG}.finder.SourceFinder.__call__', 'expr',
          'detect_sources(data, threshold, self.npixels[0], mask=mask, connectivity=self.connectivity)',
          'detection uses the first (detection) element of npixels'),
@@ -77,6 +83,8 @@ EXTRA_SPECS = {
         (f'{CAT}.get_labels', 'guard', 'indices = sorter[np.searchsorted(self.labels, labels, sorter=sorter)] ||| ',
          'the sorted lookup is used for every catalog order (no shortcut for catalogs that merely look ascending)')],
     'C08': _SHAPE_TWINS + _GET_LABELS + [
+        (f'{CAT}.add_extra_property', 'guard', 'setattr(self, name, value) ||| ',
+         'an extra property is always rebound, never written into the existing array (a sliced catalog holds a view of it)'),
         (f'{CAT}.get_labels', 'guard', 'indices = sorter[np.searchsorted(self.labels, labels, sorter=sorter)] ||| ',
          'the sorted lookup is used for every catalog order (no shortcut for catalogs that merely look ascending)'),
         (f'{AS}.isscalar', 'ret', 'self._pixel_aperture.isscalar', 'scalar-ness is that of the (converted, cached) pixel aperture'),
@@ -84,7 +92,10 @@ EXTRA_SPECS = {
     ],
     'C03': [(f'{CAT}._make_elliptical_apertures', 'expr', 'CircularAperture((values[0], values[1]), r=self.kron_params[2])',
              'the minimum-radius circular fallback is centred on (xcentroid, ycentroid) like the elliptical aperture')] + _LOCALBKG,
-    'C11': [('photutils.background.background_2d.Background2D._interpolate_grid', 'expr',
+    'C11': [('photutils.background.background_2d.Background2D._good_npixels_threshold', 'ret',
+             '(1 - (self.exclude_percentile / 100.0)) * self._box_npixels',
+             'the good-pixel threshold is the exact (fractional) percentile of the box size: no truncation to whole percents or pixels'),
+            ('photutils.background.background_2d.Background2D._interpolate_grid', 'expr',
              'interp_func(yx_indices, n_neighbors=n_neighbors, power=power, eps=eps, reg=reg)',
              'the IDW options are passed by name (the interpolator takes them in another order)')] + [
         ('photutils.background.core.StdBackgroundRMS.calc_background_rms', 'stmt', 'result = nanstd(data, axis=axis)',
@@ -131,6 +142,8 @@ EXTRA_SPECS = {
          'area = sum of the unmasked sum-method weights'),
     ],
     'C17': [
+        ('photutils.centroids.core.centroid_com', 'test', 'total == 0',
+         'only a vanishing total has no centre of mass: a negative total (absorption-like or over-subtracted cutout) still has its weighted mean'),
         ('photutils.centroids.gaussian._gaussian1d_moments', 'stmt',
          'x_stddev = np.sqrt(abs(np.sum(data * (x - x_mean) ** 2) / np.sum(data)))',
          'the initial width is real also for marginals with negative wings'),
